@@ -18,6 +18,7 @@ def dispatch (line : String) : String :=
   | "C15" :: rest => SafeLong.handle rest
   | "C07" :: rest => Uri.handle rest
   | "C01" :: rest => WrapIO.handle rest
+  | "C05" :: rest => WrapIO.handle rest
   | "C06" :: rest => Body.handle rest
   | "C18" :: rest => Body.handle rest
   | "C08" :: rest => LogSafety.handle rest
